@@ -240,3 +240,48 @@ func VerifC05_RemovalWithExtended() {
 	verif_Reach("verified")
 	verif_Assert(verr != nil, "extended-provider entries that nobody verifiably signed are rejected, on a removal advertisement too")
 }
+
+// C05 (altering the key, payload or signature bytes inside any signature
+// envelope makes verification fail): one byte, at a symbolic position and with
+// a symbolic non-zero mask, of the advertisement's envelope or of an
+// extended-provider entry's envelope.
+func VerifC05_TamperEnvelope() {
+	k := c05newKey()
+	x := c05newKey()
+	// a fixed-shape advertisement: the explored space is the altered byte
+	c, cerr := cid.Cast([]byte{0x01, 0x55, 0x00, 0x01, 0x07})
+	verif_Assume(cerr == nil)
+	ad := &Advertisement{Provider: k.id.String(), Entries: cidlink.Link{Cid: c}, Addresses: []string{"/ip4/1.2.3.4/tcp/5"}, Metadata: []byte{0x80, 0x12}, ContextID: []byte("ctx")}
+	var target *[]byte
+	if verif_Bool("extendedProviders") {
+		ad.ExtendedProvider = &ExtendedProvider{Providers: []Provider{
+			{ID: k.id.String(), Addresses: []string{"/ip4/1.2.3.4/tcp/5"}},
+			{ID: x.id.String(), Addresses: []string{"/ip4/5.6.7.8/tcp/9"}, Metadata: []byte{0x80, 0x12}},
+		}}
+		err := ad.SignWithExtendedProviders(k.priv, func(id string) (crypto.PrivKey, error) { return x.priv, nil })
+		verif_Assume(err == nil)
+		switch verif_Choose("alteredEnvelope", 0, 2) {
+		case 0:
+			target = &ad.Signature
+		case 1:
+			target = &ad.ExtendedProvider.Providers[0].Signature
+		case 2:
+			target = &ad.ExtendedProvider.Providers[1].Signature
+		}
+	} else {
+		verif_Assume(ad.Sign(k.priv) == nil)
+		target = &ad.Signature
+	}
+	_, verr := ad.VerifySignature()
+	verif_Assert(verr == nil, "the untouched advertisement verifies")
+	env := append([]byte{}, (*target)...)
+	verif_Assume(len(env) > 0)
+	pos := verif_Choose("alteredByte", 0, len(env)-1)
+	m := verif_U8("xorMask")
+	verif_Assume(m != 0)
+	env[pos] ^= m
+	*target = env
+	_, terr := ad.VerifySignature()
+	verif_Reach("verified tampered")
+	verif_Assert(terr != nil, "an advertisement with one altered byte in a signature envelope does not verify")
+}
